@@ -19,10 +19,13 @@ class C02(Property):
     lean_module = "RosuModel.Props.C02All"   # imports Props/C02Slider.lean, Props/C02Timing.lean, Props/C02Codec.lean (which import Props/C02.lean), Props/C02File.lean, Props/C02Decoded.lean, Props/C02CodecIeee.lean (all in namespace Rosu.C02) and Props/IeeeFalse.lean (namespace Rosu.IeeeFalse)
     theorem_modules = ['RosuModel.Props.C02All', 'RosuModel.Props.C02CodecIeee', ('RosuModel.Props.IeeeFalse', 'Rosu.IeeeFalse'), 'RosuModel.Props.C02DecodedIeee',
                        'RosuModel.Props.C02FinalParts', 'RosuModel.Props.C02Final', 'RosuModel.Props.C02FinalDecoded', 'RosuModel.Props.C02FinalMania', 'RosuModel.Props.C02FinalToy',
-                       'RosuModel.Props.C02FinalUnordered', ('RosuModel.Lemmas.RtTimelineDsv', 'Rosu.RtTiming')]   # files whose top-level theorems are all audited
+                       'RosuModel.Props.C02FinalUnordered', ('RosuModel.Lemmas.RtTimelineDsv', 'Rosu.RtTiming'),
+                       'RosuModel.Props.C02FinalCurves', 'RosuModel.Props.C02FinalScroll', 'RosuModel.Props.C02FinalScrollToy', 'RosuModel.Props.C02FinalScrollExact']   # files whose top-level theorems are all audited
     namespace = "Rosu.C02"
     design_ref = "5.2"
     required_theorems = [
+        "decoded_scroll_timeline", "decoded_scrollDrivesSv", "roundtrip_objects_decoded_scroll_partial", "unordered_scroll_counterexample", "mode_change_counterexample",
+        "same_fields_same_curve", "finish_curves", "roundtrip_curves_partial", "roundtrip_curves_decoded_partial",
         "sort_chronological_id", "postProcessBreaks_idempotent", "postProcessBreaks_eq_zip", "finalize_reads_timeline_only", "decoded_finalized", "roundtrip_objects_rep_core",
         "roundtrip_objects_rep_partial", "roundtrip_objects_rep_scroll_partial", "roundtrip_objects_rep_modes_partial", "scroll_hypothesis_exact", "unordered_not_finalized", "toyMapF_roundtrip_objects","trim_cons_space", "kvSplit_kvLine", "kv_line_roundtrip", "int_display_parse", "int_display_clean",
                          "metadata_block_roundtrip", "colours_block_roundtrip", "colours_block_roundtrip_decoded",
@@ -159,12 +162,21 @@ class C02(Property):
             "new_combo, and a re-decode would force it: on non-chronological input the round trip does change combo flags, which is why the property quantifies over chronological inputs). "
             "PARTIAL because RepMap is false of decoded maps in general (F17 F18 F20), EpsLaws / GroupLaws are exact-arithmetic laws, and ScrollDrivesSv is not proved of decoded taiko / mania maps "
             "(difficulty and effect points are suppressed as redundant independently)",
+        "decoded_scrollDrivesSv / roundtrip_objects_decoded_scroll_partial / roundtrip_curves_partial (gaps (d) and (e))":
+            "sixth session, Props/C02FinalScroll*.lean, Props/C02FinalCurves.lean. (d) For [TimingPoints] lines that are chronological and parsed in ONE mode (LogGood, on the ghost log tpLogBytes of the accepted "
+            "timing lines with the mode in force when each was applied), under EpsLaws / GroupLaws and ScrollClampLaws (clamp(1, 0.1, 10) = 1, clamp(clamp(x, 0.01, 10), 0.1, 10) = clamp(x, 0.1, 10); instances: toy, every exact "
+            "scalar): decoded_scroll_timeline - in a decoded taiko / mania map, at EVERY time u, difficulty_point_at(u).slider_velocity = clamp(effect_point_at(u).scroll_speed, 0.1, 10) (invariant ScrollInv through applyTpLine and the "
+            "framing driver); hence decoded_scrollDrivesSv, and roundtrip_objects_decoded_scroll_partial removes BOTH the scroll hypothesis and Finalized from roundtrip_objects_rep_scroll_partial for decoded maps. Both extra hypotheses "
+            "are necessary, kernel-evaluated: unordered_scroll_counterexample / scroll_timeline_unordered_false (lines at 10 then 5: the kiai line stores only an effect point, the later-listed earlier line a difficulty point that stays "
+            "active at 10) and mode_change_counterexample (F15). (e) same_fields_same_curve (no law: equal mode, control points and expected length give equal curves on any well-formed buffers, from C18), finalize_curves_fresh / "
+            "finish_curves (every decoded map: the curves the finaliser computes on its one threaded buffer set are the curves on fresh buffers), natural_length_same_curve (NearLaw: a slider without requested length, written with its "
+            "computed length, reads back to the same curve), roundtrip_curves_partial / roundtrip_curves_decoded_partial: the re-decoded sliders' computed curves equal the original's, all four modes, under PathStable (path mode = map mode - "
+            "F15 otherwise - and stored lengths in normal form). Non-vacuity: toyScroll_timeline (a mania file given as bytes), toyMapF_roundtrip_curves",
         "roundtrip": "NOT a theorem as a whole (only `def roundtrip_statement`, `def hitobjects_roundtrip_statement`, `def roundtrip_rep_statement`, `def roundtrip_objects_statement : Prop`). Step (a) - the map-level "
             "processing of the re-decoded objects against the original map's objects - is now proved for representable finalized maps (entry above). Still missing: sample defaults from the re-decoded "
             "sample points (outside the preserved view); (b) that a DECODED map satisfies RepMap — false in general: F17 (typed point "
             "repeated at a segment start), F18 (node sample file names), F20 (computed length above the limit), sample points collected at non-finite computed times; (c) the timing round "
-            "trip for IEEE doubles (EpsLaws / GroupLaws fail there — kernel-checked refutations in Props/IeeeFalse.lean — : the ≤4 ulp slider-velocity drift through 100/(100/sv)); (d) ScrollDrivesSv for decoded "
-            "taiko / mania maps; (e) the computed curves of the re-decoded sliders (equal control points and lengths give equal curves: C18.compute_ignores_buffers, not yet composed). These are evaluated on the implementation by the `rt` oracle "
+            "trip for IEEE doubles (EpsLaws / GroupLaws fail there — kernel-checked refutations in Props/IeeeFalse.lean — : the ≤4 ulp slider-velocity drift through 100/(100/sv)); (d) and (e) are now proved for chronological single-mode timing lines resp. under PathStable (entry above). These are evaluated on the implementation by the `rt` oracle "
             "(preserved view compared field by field, floats by bits, curves included, ≤4 ulp only for slider velocity) and on the model by the three-way `rt` correspondence "
             "(M1, text, M2 all identical between model and code)",
     }
